@@ -69,7 +69,8 @@ AdaptiveParams ==
                        [t0 |-> R(-1), tend |-> Q(1, 4), tau0 |-> Q(1, 16)],
                        [t0 |-> Zero,  tend |-> One,  tau0 |-> R(2)] }
   IN { [t0 |-> u.t0, tend |-> u.tend, tau0 |-> u.tau0, sf |-> sf, q |-> q] :
-         u \in setups, sf \in {Half, Q(3, 4), One, Q(9, 10)}, q \in {1, 2} }
+         u \in setups, q \in {1, 2},
+         sf \in (IF Grid = 1 THEN {Half, Q(9, 10), One} ELSE {Half, Q(3, 4), Q(9, 10), One}) }
 
 \* lines 509-527 for one stepper call that returned normally with error-ratio root s (r = s^q)
 \*   if r == 0: r = 1e-15        -> fac = step_factor * 1e15^(1/q) > 5 for every admissible step_factor
